@@ -35,9 +35,9 @@ import (
 	"github.com/hashicorp/consul/acl"
 	consulfsm "github.com/hashicorp/consul/agent/consul/fsm"
 	"github.com/hashicorp/consul/agent/consul/state"
+	"github.com/hashicorp/consul/agent/netutil"
 	"github.com/hashicorp/consul/agent/structs"
 	"github.com/hashicorp/consul/internal/verifkit"
-	"github.com/hashicorp/consul/agent/netutil"
 	"pgregory.net/rapid"
 )
 
@@ -225,7 +225,7 @@ type verifC19FieldReporter struct {
 }
 
 func (r *verifC19FieldReporter) PushStep(ps cmp.PathStep) { r.path = append(r.path, ps) }
-func (r *verifC19FieldReporter) PopStep()                  { r.path = r.path[:len(r.path)-1] }
+func (r *verifC19FieldReporter) PopStep()                 { r.path = r.path[:len(r.path)-1] }
 func (r *verifC19FieldReporter) Report(rs cmp.Result) {
 	if rs.Equal() {
 		return
@@ -697,16 +697,19 @@ func TestVerifC19Store(t *testing.T) {
 }
 
 // TestVerifC19ExhaustiveStore: the same small space through the real stores (unordered lists: the order
-// dimension is covered by the pure block). Thorough tier, or VERIF_C19_EXH_STORE=1.
+// dimension is covered by the pure block). Thorough tier (or VERIF_C19_EXH_STORE=1): 3 IDs; quick tier: 2 IDs.
 func TestVerifC19ExhaustiveStore(t *testing.T) {
 	rec := verifkit.For("C19")
 	defer rec.Flush()
-	if !verifkit.Thorough() && verifkit.EnvInt("VERIF_C19_EXH_STORE", 0) == 0 {
-		t.Skip("thorough tier only")
+	nIDs := 2
+	if verifkit.Thorough() || verifkit.EnvInt("VERIF_C19_EXH_STORE", 0) != 0 {
+		nIDs = 3
 	}
 	shard, n := verifC19Shard()
-	total := verifC19Exhaustive(t, rec, "store", verifC19Types, shard, n, false)
-	rec.AddExtraInt("exhaustive_small_pairs", total)
-	rec.AddExtraInt("exhaustive_small_pairs_store", total)
+	total := verifC19Exhaustive(t, rec, "store", verifC19Types, shard, n, false, nIDs)
+	if nIDs == 3 {
+		rec.AddExtraInt("exhaustive_small_pairs", total)
+	}
+	rec.AddExtraInt(fmt.Sprintf("exhaustive_small_pairs_store_%dids", nIDs), total)
 	t.Logf("exhaustive store cases on shard %d/%d: %d", shard, n, total)
 }
